@@ -124,6 +124,29 @@ func artefacts(cfg *definitions.GleeceConfig, meta pipeline.GleeceFlattenedMetad
 	return spec, routesSrc, err
 }
 
+// graphContent renders what the graph holds about declared enums and structs (the payloads analysis results are
+// reduced from and that an editor integration reads), canonically.
+func graphContent(p *pipeline.GleecePipeline) string {
+	g := p.Graph()
+	var lines []string
+	for _, e := range g.Enums() {
+		l := fmt.Sprintf("enum %s.%s %s:", e.PkgPath, e.Name, e.ValueKind)
+		for _, v := range e.Values {
+			l += fmt.Sprintf(" %s=%v", v.Name, v.Value)
+		}
+		lines = append(lines, l)
+	}
+	for _, st := range g.Structs() {
+		l := fmt.Sprintf("struct %s.%s:", st.PkgPath, st.Name)
+		for _, f := range st.Fields {
+			l += fmt.Sprintf(" %s:%s", f.Name, f.Type.Name)
+		}
+		lines = append(lines, l)
+	}
+	sort.Strings(lines)
+	return strings.Join(lines, "\n")
+}
+
 func c19Check(m c19Model, rec *ev.Recorder) (viols []harness.Viol) {
 	lab.Quiet()
 	dir, err := lab.Scratch("c19-")
@@ -174,6 +197,7 @@ func c19Check(m c19Model, rec *ev.Recorder) (viols []harness.Viol) {
 	}
 	firstCanon, firstDiags := "", ""
 	nodes0, edges0 := -1, -1
+	content0 := ""
 	reductions := 0
 	var lastMeta *pipeline.GleeceFlattenedMetadata
 	for step, op := range m.History {
@@ -221,12 +245,21 @@ func c19Check(m c19Model, rec *ev.Recorder) (viols []harness.Viol) {
 			lastMeta = &mm
 		}
 		n, e := graphSize(&session)
+		if gc := graphContent(&session); content0 == "" {
+			content0 = gc
+		} else if gc != content0 {
+			add("graph-content-changes", "after step %d (%s) the graph's enum/struct payloads differ from those after the first step: %s", step, op, firstDiffAt(content0, gc))
+			return
+		}
 		if nodes0 < 0 {
 			nodes0, edges0 = n, e
 		} else if n != nodes0 || e != edges0 {
 			add("graph-grows", "after step %d (%s) the graph has %d nodes / %d edges, after the first step it had %d / %d", step, op, n, e, nodes0, edges0)
 			return
 		}
+	}
+	if fc := graphContent(&fresh); content0 != "" && fc != content0 {
+		add("graph-content-differs-from-fresh-session", "%s", firstDiffAt(fc, content0))
 	}
 	fn, fe := graphSize(&fresh)
 	if nodes0 >= 0 && (fn != nodes0 || fe != edges0) {
